@@ -11,18 +11,26 @@
   What is proved here:
     §1 error taxonomy / totality   `trsoF_error_internal`, `identify_error_cases`, `identify_invalid_iff`,
                                    `identify_trichotomy`                                  (all inputs, any budget)
-       "never fails otherwise"     `trso_no_internal_error_partial` (no declared experiment: no failure at all),
+       "never fails otherwise"     **`trso_no_internal_error`** (ALL validated inputs: no exception), `trso_no_error_class`;
+                                   `trso_no_internal_error_partial` (no declared experiment, any separation test),
                                    `trso_only_activate_error_partial` (ALL validated inputs: the only failure that can
                                    remain is the NotImplementedError of `activate` on `One()`),
                                    `trso_no_recursion_or_key_error_partial`
     §2 selection diagrams          `mem_nodes/mem_di/bi_createTransportDiagram`, `tnode_parentless`,
                                    `getNodesToTransport_spec`, `getNodesToTransport_total`
     §3 vocabulary (C06)            `trso_vocab_C05`, `trso_no_domains_target_only`   (proofs in Props/C06Transport)
-       no surrogate = ID           `trso_no_surrogate_iff_id_partial`, `trso_no_surrogate_none_iff_id_partial` (verdicts)
-    §4 semantics                   `den_sumSafe`, `line1_den`  (line 1 is marginalisation of the carried distribution)
-  What is NOT proved (visible below as `-- OPEN:` blocks and listed in ASSUMPTIONS of the harness module):
-    trso_sound; the denotation part of trso_no_surrogate_iff_id; trso_no_internal_error for inputs with declared
-    experiments beyond "only `activate`'s NotImplementedError" (that `activate` never meets `One()`).
+       no surrogate = ID           `trso_no_surrogate_iff_id_partial`, `trso_no_surrogate_none_iff_id_partial` (verdicts),
+                                   `trso_sound_no_surrogate`, `trso_no_surrogate_den_eq_id` (denotations)
+    §4 semantics                   `den_sumSafe`, `line1_den`, and **`trso_sound`** (the first sentence of the property, at
+                                   full strength: every run, every compatible family, every assignment)
+  The three sentences of the property are `trso_sound` (every returned estimand equals the target effect in every
+  compatible family), `trso_no_surrogate_iff_id_partial` / `trso_no_surrogate_none_iff_id_partial` /
+  `trso_no_surrogate_den_eq_id` (no DECLARED experiment: same verdict and same function as ID) and
+  `trso_no_internal_error` (no exception on validated input).  The one gap (kept as `_partial`): the VERDICT equivalence
+  with ID is proved for inputs whose source domains declare no experiment, not for "experiments declared, none usable"
+  (there `trso_sound` still gives the value, and the verdict is compared with the real `identify_outcomes` on every run).  The `…_partial` theorems of §1 are kept as the
+  intermediate results they are (subsumed by `trso_no_internal_error`).  Hypotheses everywhere: graph well-formed and
+  acyclic, node names below 100 (selection nodes are `200 + v`), outcomes non-empty, input validated.
 -/
 import Y0.Props.C06Transport
 import Y0.Lemmas.TrsoTotal
@@ -33,6 +41,10 @@ import Y0.Lemmas.TrsoNoErr
 import Y0.Lemmas.TrsoIdSim
 import Y0.Lemmas.TrsoAll
 import Y0.Props.C02
+import Y0.Props.C01
+import Y0.Lemmas.TrsoSoundNoSurr
+import Y0.Lemmas.TrsoSound
+import Y0.Lemmas.TrsoTotalAll
 
 namespace Y0
 namespace Trso
@@ -161,7 +173,7 @@ theorem identify_invalid_iff {sep : SepTest} (hs : SepInternal sep) (G : MG Name
   · intro hv; unfold identifyTargetOutcomes; simp [hv]
 
 /-- **Trichotomy.**  On valid input the outcome is an estimand, "no estimand", or an internal error (the third case
-is what the property forbids; that it does not occur is checked by the correspondence on every run, see OPEN below). -/
+is what the property forbids; that it does not occur is `trso_no_internal_error` below). -/
 theorem identify_trichotomy {sep : SepTest} (hs : SepInternal sep) (G : MG Name) (Y X : List Name)
     (outcomes interventions : List (Pop × List Name)) (hv : validInput G Y X outcomes interventions = true) :
     (∃ e, identifyTargetOutcomes sep G Y X outcomes interventions = .ok (some e)) ∨
@@ -250,17 +262,48 @@ theorem trso_no_recursion_or_key_error_partial (G : MG Name) (hG : G.WF) (hA : G
 example : validInput (MG.fromEdges [] [(0, 1), (1, 2), (2, 3)] [(0, 2), (0, 3)]) [3] [2] [(1001, [1])] [(1001, [])] = true := by
   decide
 
--- OPEN: trso_no_internal_error  (the clause "it never fails other than by returning 'no estimand'", all inputs)
---   theorem trso_no_internal_error (G : MG Name) (hG : G.WF) (hA : G.Acyclic) (hsmall : ∀ v ∈ G.nodes, v < 100)
---       (hv : validInput G Y X outcomes interventions = true) (hY : Y ≠ []) :
---       ∀ k, identifyTargetOutcomes dSeparated G Y X outcomes interventions ≠ .error (.internal k)
---   Proved above: for inputs without declared experiments (`trso_no_internal_error_partial`), and for all inputs up to
---   ONE raise site (`trso_only_activate_error_partial`): `activate_domain_and_interventions` raises NotImplementedError
---   on `One()`.  What is missing is a shape argument about the estimands returned by the source-phase recursion: they
---   never contain `One()` (a joint is never summed over all its children, line 9's numerator never cancels completely,
---   `canonicalize` never meets a fraction with equal numerator and denominator).  Every run of the check compares the
---   error category of the model and of the Python on ~10^4 inputs and reports any exception on valid input as a
---   violation; no input reaching that raise site has been found.
+/-- **C05, last sentence: TRSO never fails other than by returning "no estimand".**  For every validated input over a
+well-formed acyclic graph of user variables (names below 100) with non-empty outcomes - any number of source domains,
+any experiment and surrogate-outcome sets - `identify_target_outcomes` (instantiated with `are_d_separated`) returns an
+estimand or "no estimand": NO exception of any kind, in particular not the `NotImplementedError` that
+`activate_domain_and_interventions` raises on `One()` (the raise site `trso_only_activate_error_partial` left open).
+Proof (Lemmas/TrsoTotalAll on top of Lemmas/TrsoAll): the estimand returned by a run inside a source domain contains
+no `One()` (`srcShape`, Lemmas/TrsoShapeAll): followed in the COIN family (all variables binary, all mechanisms uniform),
+whose semantic invariant gives every sub-expression its value, `Sum.simplify` never sums out all children of a joint
+(the carried joint keeps the intervened variables as un-summed children), `Fraction.simplify` of line 9 cannot cancel to
+`One()` or `1 / …` (the c-factor of a district has value below 1, every denominator factor at most 1), and
+`canonicalize` never meets a fraction with canonically equal parts (its value would be 1; Lemmas/TrsoShapeCanon) -
+hence `activate` succeeds (`activate_ok_of_noOne`). -/
+theorem trso_no_internal_error (G : MG Name) (hG : G.WF) (hA : G.Acyclic) (hsmall : ∀ v ∈ G.nodes, v < 100)
+    (Y X : List Name) (outcomes interventions : List (Pop × List Name))
+    (hv : validInput G Y X outcomes interventions = true) (hY : Y ≠ []) :
+    ∃ r, identifyTargetOutcomes dSeparated G Y X outcomes interventions = .ok r := by
+  obtain ⟨graphs, hg⟩ := surrogateToTransport_ok hG hv
+  obtain ⟨hinv, hmu, hc, hr⟩ := qinitial_inv hG hA hsmall hv hY hg
+  rw [identify_eq_trso hv hg]
+  have hrk : G.Ranked := MG.acyclic_ranked hG hA
+  have hsmall' : ∀ v ∈ G.nodes, v < 200 := fun v hv => Nat.lt_trans (hsmall v hv) (by decide)
+  have hnoT : ∀ v ∈ G.nodes, isTnode v = false := noT_of_small hsmall'
+  have hsub : ∀ p ∈ graphs, RSub G p.2 := by
+    intro p hp
+    rcases (surrogateToTransport_spec hG hv hg).2 p hp with rfl | ⟨_, ns, hns, hp2⟩
+    · exact rsub_self
+    · rw [hp2]; exact rsub_ctd hsmall hns
+  have hts : TSem G hG hrk (targetPop :: graphs.map (fun p => p.1)) (fun _ => 0)
+      (initialQuery G Y X graphs interventions) G := by
+    refine ⟨fun _ _ => ?_, fun ha => absurd rfl ha⟩
+    exact famCtx_initial _ (coinFam_ok G hG hrk _) List.mem_cons_self rfl hnoT Y X graphs interventions hsub
+      (fun p _ v hne => absurd rfl hne) (fun p hp => List.mem_cons_of_mem _ (List.mem_map_of_mem hp))
+  obtain ⟨o, ho, _⟩ := trsoF_total G hG hrk _ (fun _ => 0) hsmall _ _ _ G hinv hc hr hmu hts
+  exact ⟨o, ho⟩
+
+/-- in particular: no internal error of any class on validated input -/
+theorem trso_no_error_class (G : MG Name) (hG : G.WF) (hA : G.Acyclic) (hsmall : ∀ v ∈ G.nodes, v < 100)
+    (Y X : List Name) (outcomes interventions : List (Pop × List Name))
+    (hv : validInput G Y X outcomes interventions = true) (hY : Y ≠ []) (err : Err) :
+    identifyTargetOutcomes dSeparated G Y X outcomes interventions ≠ .error err := by
+  obtain ⟨r, hr⟩ := trso_no_internal_error G hG hA hsmall Y X outcomes interventions hv hY
+  rw [hr]; intro h; cases h
 
 /-! ## 2. Selection diagrams, set-theoretically -/
 
@@ -411,15 +454,43 @@ theorem trso_no_surrogate_none_iff_id_partial {topo : MG Name → Except Err (Li
       obtain ⟨e', he'⟩ := hiff.1 ⟨e, hr⟩
       rw [hun] at he'; cases he'
 
--- OPEN: trso_no_surrogate_iff_id (denotation part)
---   ... and both estimands denote the same function in every `Scm` compatible with `G`:
---       den env σ' e σ = den env σ' e' σ   for the estimands e (TRSO) and e' (ID) of the theorem above.
---   The ID side is `id_sound` (Props/C01).  The TRSO side needs the denotation lemmas of the TrDsl operators
---   (`Sum.simplify` on a joint, `Product.safe`, `*`, `/`, `Fraction.simplify`, `canonicalize`; only `Sum.safe` is done:
---   `den_sumSafe`) - fraction cancellation is only sound where the cancelled factor is non-zero, i.e. under positivity -
---   and then the same invariant as `id_sound` ("the carried estimand denotes Q[V_cur]").  Checked on every run: the
---   exact-rational oracle evaluates every TRSO estimand against P*(y|do(x)), and the verdict is compared with the real
---   `identify_outcomes` on every no-surrogate case.
+/-- **With no declared surrogate experiment the TRSO estimand is sound** (denotation part of the clause, and the first
+sentence of the property for every run that uses no source experiment).  For every validated input over a well-formed
+acyclic graph of user variables (names below 100), with non-empty outcomes and source domains that declare no
+experiment, every estimand `identify_target_outcomes` returns denotes `P(Y | do(X))` (truncated factorisation,
+`Scm.doProb`) in EVERY positive semi-Markovian model `M` compatible with the graph (Y0/Spec/Scm.lean), at every value
+assignment — whatever the separation test.  The population tag "pi*" of its leaves reads the model (`M.env G`).
+Proof: the recursion invariant "the carried expression denotes the c-factor `Q[V_cur]`" (Lemmas/TrsoSem, TrsoSem34,
+TrsoSemRatio, assembled in TrsoSemAll) on top of the c-factor lemmas of Lemmas/QFactor, and the denotation lemmas of
+the DSL operators of Y0.Model.TrDsl including `canonicalize` and `Fraction.simplify` (Lemmas/TrsoDenOps, TrsoDenCanon;
+cancellation is sound because compatible models are positive). -/
+theorem trso_sound_no_surrogate (sep : SepTest) (G : MG Name) (hG : G.WF) (hA : G.Acyclic)
+    (hsmall : ∀ v ∈ G.nodes, v < 100) (Y X : List Name) (outcomes interventions : List (Pop × List Name))
+    (hv : validInput G Y X outcomes interventions = true) (hY : Y ≠ []) (hZ : ∀ p ∈ interventions, p.2 = [])
+    (e : Expr) (h : identifyTargetOutcomes sep G Y X outcomes interventions = .ok (some e))
+    (M : Scm) (hM : M.Compatible G) (σ' σ : Val) :
+    den (M.env G) σ' e σ = M.doProb G X Y σ :=
+  trso_sound_no_surrogate_core sep G hG hA hsmall Y X outcomes interventions hv hY hZ e h M hM σ' σ
+
+/-- **... and it is the function the ID estimand denotes**: with no declared experiment the estimands of TRSO and of ID
+(for any sound topological-order oracle) have the same value in every compatible model at every assignment (both are
+`P(Y | do(X))`: `trso_sound_no_surrogate`, `id_sound`).  Together with `trso_no_surrogate_iff_id_partial` this is the
+clause "when no surrogate experiment is usable it returns an estimand exactly when ID does". -/
+theorem trso_no_surrogate_den_eq_id {topo : MG Name → Except Err (List Name)} (ts : TopoSound topo) (sep : SepTest)
+    (G : MG Name) (hG : G.WF) (hA : G.Acyclic) (hsmall : ∀ v ∈ G.nodes, v < 100) (Y X : List Name)
+    (outcomes interventions : List (Pop × List Name)) (hv : validInput G Y X outcomes interventions = true) (hY : Y ≠ [])
+    (hZ : ∀ p ∈ interventions, p.2 = []) (e e' : Expr)
+    (h : identifyTargetOutcomes sep G Y X outcomes interventions = .ok (some e)) (h' : identify topo G X Y = .ok e')
+    (M : Scm) (hM : M.Compatible G) (σ' σ : Val) :
+    den (M.env G) σ' e σ = den (M.env G) σ' e' σ := by
+  obtain ⟨hYin, _, _, _, hXY, _, _⟩ := validInput_spec hv
+  rw [trso_sound_no_surrogate sep G hG hA hsmall Y X outcomes interventions hv hY hZ e h M hM σ' σ,
+    id_sound ts G X Y ⟨hG, MG.acyclic_ranked hG hA, hYin, hY, hXY⟩ e' h' M hM σ' σ]
+
+/-- non-vacuity: on the napkin graph with a source domain that declares surrogate outcomes but no experiment TRSO
+returns an estimand (the run goes through lines 3, 10 and 9), so the two theorems above apply to a non-trivial run -/
+example : ∃ e, identifyTargetOutcomes dSeparated (MG.fromEdges [] [(0, 1), (1, 2), (2, 3)] [(0, 2), (0, 3)]) [3] [2]
+    [(1001, [1])] [(1001, [])] = .ok (some e) := ⟨_, rfl⟩
 
 /-! ## 4. Semantics: what is proved, and the full statement -/
 
@@ -459,21 +530,93 @@ theorem line1_den (env : Env) (σ' : Val) (Y : List Name) (e : Expr) (G : MG Nam
   unfold line1
   rw [den_sumSafe]
 
--- OPEN: trso_sound  (the first sentence of the property)
---   theorem trso_sound (G : MG Name) (hG : G.WF) (hA : G.Acyclic) (hT : ∀ v ∈ G.nodes, isTnode v = false)
---       (hv : validInput G Y X outcomes interventions = true) (hX : X ≠ []) (hY : Y ≠ [])
---       (h : identifyTargetOutcomes dSeparated G Y X outcomes interventions = .ok (some e))
---       (F : Family) (Δ : List (Name × List Name))
---       (hΔ : ∀ d Z W, (d, Z) ∈ interventions → (d, W) ∈ outcomes → ∃ ns, (d, ns) ∈ Δ ∧ ∀ v, v ∈ ns ↔ MayDiffer G Z W v)
---       (hF : F.SelectionCompatible G Δ) :
---       ∀ σ σ', den F.env σ' e σ = F.targetEffect G X Y σ
---   Proof plan (DESIGN.md 4, C05): invariant "the carried expression denotes Q[V(G_cur)] of the CURRENT domain under the
---   active experiment and the call returns Σ_{V_cur−(X∪Y)} Q[V_cur−X] of the TARGET"; lines 1-3 by (sink), line 4 by
---   (split), lines 9/10 by (ratio) — the three Q-factor lemmas of the `id` family — and line 6 by the transport version
---   of do-calculus rule 2 over `Family` (selection nodes separated from Y given X in the diagram without edges into X ⇒
---   P*_x(y) = P^π_x(y)), which is literature (Bareinboim & Pearl 2014; Tikka & Karvanen 2019), not mechanised here.
---   The exact-rational multi-domain oracle of harness/oracles/family_eval.py decides this clause on every run for every
---   returned estimand, on two random families per case, at every value assignment.
+/-- **C05, first sentence: TRSO is sound.**  For every validated input over a well-formed acyclic graph of user
+variables (names below 100) with non-empty outcomes, whenever `identify_target_outcomes` (instantiated with
+`are_d_separated`) returns an estimand `e`, then in EVERY multi-domain family of positive semi-Markovian models that is
+compatible with the derived selection diagrams — `F.SelectionCompatible G Δ` (Y0/Spec/FamilySpec.lean): every source
+domain has the target's cardinalities, latent variables, latent priors and mechanisms except at the variables `Δ_d`,
+where `Δ_d` is, for every declared pair (experiments `Z`, surrogate outcomes `W`) of domain `d`, the set `MayDiffer G Z W`
+at which `get_nodes_to_transport` places selection nodes (`getNodesToTransport_spec`) — evaluating `e` with the target's
+observational distribution (leaves tagged "pi*") and each source domain's declared experimental distributions (leaves
+`PP[d](… @ z)`, read by `Family.env` from the model of `d` under `do(z)`) gives exactly the target effect
+`P*(y | do(x))` (`Family.targetEffect`: truncated factorisation in the target model), at every value assignment.
+No restriction on the run: any number of source experiments may be used, at any depth of the recursion.
+
+Proof (Lemmas/TrsoSound): the soundness engine (Lemmas/TrsoSemAll: recursion invariant "the carried expression denotes
+the c-factor `Q[V_cur]` of the CURRENT domain's model"; lines 1-4, 9, 10 by the c-factor lemmas of Lemmas/QFactor) is run
+in the target domain and, at every application of line 6, inside the source domain, where every leaf is read as the leaf
+`activate_domain_and_interventions` turns it into (Lemmas/TrsoDenAct, TrsoSrcCtx); line 6 itself is
+`spec_transport` (Lemmas/TrsoSemL6): a positive separation test means no variable of `V_cur ∖ X` carries a selection
+node, so `Q[V_cur ∖ X]` is made of mechanisms the two domains share. -/
+theorem trso_sound (G : MG Name) (hG : G.WF) (hA : G.Acyclic) (hsmall : ∀ v ∈ G.nodes, v < 100) (Y X : List Name)
+    (outcomes interventions : List (Pop × List Name)) (hv : validInput G Y X outcomes interventions = true) (hY : Y ≠ [])
+    (e : Expr) (h : identifyTargetOutcomes dSeparated G Y X outcomes interventions = .ok (some e))
+    (F : Family) (Δ : List (Name × List Name))
+    (hΔ : ∀ d Z W, (d, Z) ∈ interventions → (d, W) ∈ outcomes → ∃ ns, (d, ns) ∈ Δ ∧ ∀ v, v ∈ ns ↔ MayDiffer G Z W v)
+    (hF : F.SelectionCompatible G Δ) (σ' σ : Val) :
+    den F.env σ' e σ = F.targetEffect G X Y σ := by
+  obtain ⟨graphs, hg⟩ := surrogateToTransport_ok hG hv
+  have hr : G.Ranked := MG.acyclic_ranked hG hA
+  have hspec := surrogateToTransport_spec' hG hv hg
+  have htag : F.dom (some targetPop) = F.dom none := hF.target_tag
+  -- every source domain of a diagram has an entry in `Δ`
+  have hsrc : ∀ p ∈ graphs, p ≠ (targetPop, G) → ∃ Z W ns ns', (p.1, Z) ∈ interventions ∧ (p.1, W) ∈ outcomes ∧
+      getNodesToTransport G Z W = .ok ns ∧ p.2 = createTransportDiagram G ns ∧ (p.1, ns') ∈ Δ ∧
+      ∀ v, v ∈ ns' ↔ MayDiffer G Z W v := by
+    intro p hp hne
+    rcases hspec p hp with h0 | ⟨Z, W, ns, hZ, hW, hns, hp2⟩
+    · exact absurd h0 hne
+    · obtain ⟨ns', hns', hiff⟩ := hΔ p.1 Z W hZ hW
+      exact ⟨Z, W, ns, ns', hZ, hW, hns, hp2, hns', hiff⟩
+  have hdom : ∀ d ∈ targetPop :: graphs.map (fun p => p.1), (F.dom (some d)).Compatible G ∧
+      SameExo (F.dom none) (F.dom (some d)) := by
+    intro d hd
+    rcases List.mem_cons.1 hd with rfl | hd
+    · rw [htag]; exact ⟨hF.target, rfl, rfl, rfl⟩
+    · obtain ⟨p, hp, rfl⟩ := List.mem_map.1 hd
+      by_cases hne : p = (targetPop, G)
+      · subst hne; show (F.dom (some targetPop)).Compatible G ∧ _
+        rw [htag]; exact ⟨hF.target, rfl, rfl, rfl⟩
+      · obtain ⟨_, _, _, ns', _, _, _, _, hns', _⟩ := hsrc p hp hne
+        obtain ⟨hc, ha⟩ := hF.source _ hns'
+        exact ⟨hc, ha.card, ha.lat, ha.prior⟩
+  have hgood : FamGood F G (targetPop :: graphs.map (fun p => p.1)) graphs := by
+    refine ⟨⟨hF.graph, hF.target, fun n hn => (hdom n hn).1, fun n hn => (hdom n hn).2.card, hG, hr⟩, htag,
+      fun d hd => (hdom d hd).2, ?_⟩
+    intro p hp v hdiff hvreg
+    by_cases hne : p = (targetPop, G)
+    · subst hne
+      exact absurd (by show (F.dom (some targetPop)).kern v = _; rw [htag]) hdiff
+    · obtain ⟨Z, W, ns, ns', hZin, hWin, hns, hp2, hns', hiff⟩ := hsrc p hp hne
+      obtain ⟨_, ha⟩ := hF.source _ hns'
+      have hnsG : ∀ s ∈ ns, s ∈ G.nodes := by
+        obtain ⟨_, _, hWv, hZv, _, _, _⟩ := validInput_spec hv
+        obtain ⟨ns2, hns2, hsub⟩ := getNodesToTransport_ok hG (hZv _ hZin) (hWv _ hWin)
+        rw [hns] at hns2
+        cases hns2
+        exact hsub
+      rw [hp2] at hvreg ⊢
+      have hvG : v ∈ G.nodes := (rsub_ctd hsmall hnsG).nodes v hvreg
+      have hvns' : v ∈ ns' := by
+        by_contra hnot
+        exact hdiff (ha.kern v hvG hnot)
+      have hvns : v ∈ ns := (getNodesToTransport_spec G hG Z W ns hns v).2 ((hiff v).1 hvns')
+      exact (ctd_mem_di G ns (tnode v, v)).2 (Or.inr ⟨v, hvns, rfl⟩)
+  exact trso_sound_core G hG hA hsmall Y X outcomes interventions hv hY e h graphs hg F hgood σ' σ
+
+set_option maxRecDepth 100000 in
+/-- non-vacuity (run): Figure 8 of Tikka & Karvanen / `test_transport_1` — two source domains with experiments on `X1`
+and `X2`; TRSO returns an estimand that uses BOTH source experiments (line 4, then line 6 twice), so `trso_sound`
+applies to a run through lines 4, 6, 2, 9 in two different source domains -/
+example : ∃ e, identifyTargetOutcomes dSeparated
+    (MG.fromEdges [] [(0, 3), (0, 4), (2, 3), (2, 4), (5, 3), (5, 1), (1, 4), (5, 4)] [(0, 3), (5, 2), (5, 1)])
+    [3, 4] [0, 1] [(1001, [3]), (1002, [4])] [(1001, [0]), (1002, [1])] = .ok (some e) := ⟨_, rfl⟩
+
+/-- non-vacuity (families): for every well-formed acyclic graph and every marking `Δ` a compatible family exists (all
+domains equal to the coin model); families whose source domains differ at the marked variables are what the
+exact-rational oracle of the harness draws -/
+example (G : MG Name) (Δ : List (Name × List Name)) : (coinFam G).SelectionCompatible G Δ :=
+  ⟨fun _ => rfl, coinScm_compatible G, rfl, fun _ _ => ⟨coinScm_compatible G, rfl, rfl, rfl, rfl, fun _ _ _ => rfl⟩⟩
 
 end Trso
 end Y0
